@@ -23,6 +23,7 @@ import (
 	"github.com/relab/hotstuff/core/eventloop"
 	"github.com/relab/hotstuff/core/logging"
 	"github.com/relab/hotstuff/internal/proto/clientpb"
+	"github.com/relab/hotstuff/internal/tree"
 	"github.com/relab/hotstuff/network"
 	"github.com/relab/hotstuff/protocol"
 	"github.com/relab/hotstuff/protocol/comm"
@@ -53,6 +54,7 @@ type Opts struct {
 	Cmds        int // commands per client
 	Crash       hotstuff.ID   // replica stopped mid-run (0 = none)
 	CrashAfter  int           // ... after this many client commands completed
+	Kauri       bool          // tree-based vote aggregation (comm.Kauri, tree-leader rotation, branch factor 2)
 	Resubmit    bool          // clients resubmit already executed commands at the end
 	WallCap     time.Duration // bound of the whole run (not a verdict)
 	Label       string
@@ -60,7 +62,11 @@ type Opts struct {
 }
 
 func (o Opts) String() string {
-	return fmt.Sprintf("live n=%d %s %s leader=%s byz=%v batch=%d clients=%dx%d crash=%d timeout=%s", o.N, o.Ruleset, o.Scheme, o.Leader, o.Byz, o.Batch, o.Clients, o.Cmds, o.Crash, o.ViewTimeout)
+	c := "clique"
+	if o.Kauri {
+		c = "kauri"
+	}
+	return fmt.Sprintf("live n=%d %s %s %s leader=%s byz=%v batch=%d clients=%dx%d crash=%d timeout=%s", o.N, o.Ruleset, o.Scheme, c, o.Leader, o.Byz, o.Batch, o.Clients, o.Cmds, o.Crash, o.ViewTimeout)
 }
 
 type cmdKey struct {
@@ -238,6 +244,13 @@ func Run(o Opts, r *vbase.Result) {
 		if o.Ruleset == rules.NameFastHotStuff {
 			ropts = append(ropts, core.WithAggregateQC())
 		}
+		commName := comm.NameClique
+		if o.Kauri {
+			tr := tree.NewSimple(id, 2, tree.DefaultTreePos(o.N))
+			tr.SetTreeHeightWaitTime(30 * time.Millisecond)
+			ropts = append(ropts, core.WithKauriTree(tr))
+			commName = comm.NameKauri
+		}
 		dc := wiring.NewCore(id, "live", key, ropts...)
 		sender := network.NewGorumsSender(dc.EventLoop(), dc.Logger(), dc.RuntimeCfg(), insecure.NewCredentials())
 		base, err := crypto.New(dc.RuntimeCfg(), o.Scheme)
@@ -269,7 +282,7 @@ func Run(o Opts, r *vbase.Result) {
 			r.Inconclusive("live: leader: " + err.Error())
 			return
 		}
-		cm, err := comm.New(dc.Logger(), dc.EventLoop(), dc.RuntimeCfg(), ds.Blockchain(), ds.Authority(), sender, lr, vs, comm.NameClique)
+		cm, err := comm.New(dc.Logger(), dc.EventLoop(), dc.RuntimeCfg(), ds.Blockchain(), ds.Authority(), sender, lr, vs, commName)
 		if err != nil {
 			r.Inconclusive("live: comm: " + err.Error())
 			return
@@ -499,6 +512,7 @@ func (l *Live) judge(capHit bool) {
 		}
 	}
 	l.judgeVotes()
+	l.judgeCertificates()
 	// equal counts => equal digests
 	type cd struct {
 		id   hotstuff.ID
@@ -597,5 +611,40 @@ func (l *Live) judgeVotes() {
 		if b.Parent() != b.QuorumCert().BlockHash() {
 			l.violate("C03", "vote-parent-not-certified", "r%d voted for a block of view %d whose parent is not the block its QC certifies", e.Signer, b.View())
 		}
+	}
+}
+
+// judgeCertificates (C09/C02 in the live cluster): every quorum certificate that honest replicas put into a proposal
+// or committed names at least a quorum of replicas, and every named honest replica really signed the certified block
+// (sign log) - whoever collected the votes, all-to-one or through the Kauri tree.
+func (l *Live) judgeCertificates() {
+	q := hotstuff.QuorumSize(l.O.N)
+	for _, b := range l.blocks {
+		qc := b.QuorumCert()
+		if qc.Signature() == nil {
+			continue
+		}
+		if nd := l.nodes[b.Proposer()-1]; b.Proposer() == 0 || int(b.Proposer()) > len(l.nodes) || !nd.honest {
+			continue
+		}
+		target, ok := l.blocks[qc.BlockHash()]
+		if !ok {
+			l.R.Obs("live_qcs_for_unseen_blocks", 1)
+			continue
+		}
+		msg := target.ToBytes()
+		named, genuine := 0, 0
+		qc.Signature().Participants().ForEach(func(id hotstuff.ID) {
+			named++
+			if int(id) >= 1 && int(id) <= len(l.nodes) && (!l.nodes[id-1].honest || l.log.Signed(id, msg)) {
+				genuine++
+			} else {
+				l.violate("C09", "qc-names-nonvoter", "the QC for the block of view %d in r%d's proposal for view %d names replica %d, which never signed that block", target.View(), b.Proposer(), b.View(), id)
+			}
+		})
+		if named < q {
+			l.violate("C09", "qc-below-quorum", "the QC for the block of view %d in r%d's proposal names only %d replicas (quorum %d)", target.View(), b.Proposer(), named, q)
+		}
+		l.R.Obs("live_qcs_checked", 1)
 	}
 }
